@@ -872,7 +872,7 @@ def assemble(unit, mode='verify', vacuity=False, seen=None, top=True, only_props
             seen.add(key)
             with open(os.path.join(CONTRACTS, words[1]), encoding='utf-8') as f:
                 inc = f.read()
-            if mode == 'stub':
+            if mode == 'stub' or vacuity:
                 inc = stub_proof_fns(inc)
             res.includes.append(words[1])
             out.append('// ---- include %s ----' % words[1])
@@ -923,7 +923,9 @@ def assemble(unit, mode='verify', vacuity=False, seen=None, top=True, only_props
             qual = words[1] + '::' + fpath
             fmode = mode
             n0 = len(res.meta)
-            txt = annotate_fn(sf, item, blk, res.counts, res.meta, fmode, qual)
+            will_clone = vacuity and mode == 'verify' and not blk.opts.get('assumed') and not blk.opts.get('novac')
+            # in the vacuity variant the original is only a contract stub: the clone carries the body
+            txt = annotate_fn(sf, item, blk, res.counts, res.meta, 'stub' if will_clone else fmode, qual)
             for m in res.meta[n0:]:
                 m['unit'] = unit
             out.append(txt)
